@@ -77,6 +77,7 @@ public:
 	size_t curTapeLen = 0;
 	std::string phase = "random";
 	bool replaying = false;
+	bool feedAll = false; // enumerators that shard by themselves: feed() takes every tape
 	size_t sampleLimit = 6;
 
 	void cls(const std::string& c, uint64_t n = 1) { classes[c] += n; }
@@ -334,7 +335,7 @@ inline int harnessMain(int argc, char** argv, const Harness& h) {
 		std::set<std::string> seenSigs;
 		auto feed = [&](const std::vector<uint8_t>& tape) {
 			uint64_t my = idx++;
-			if (static_cast<int>(my % static_cast<uint64_t>(args.nshards)) != args.shard)
+			if (!run.feedAll && static_cast<int>(my % static_cast<uint64_t>(args.nshards)) != args.shard)
 				return;
 			detCount++;
 			run.haveCandidate = false;
@@ -445,7 +446,7 @@ inline int harnessMain(int argc, char** argv, const Harness& h) {
 		uint64_t idx = 0, mine = 0;
 		std::vector<std::vector<uint8_t>> all;
 		h.deterministic(run, [&](const std::vector<uint8_t>& tape) {
-			if (static_cast<int>(idx++ % static_cast<uint64_t>(args.nshards)) == args.shard % args.nshards)
+			if (run.feedAll || static_cast<int>(idx++ % static_cast<uint64_t>(args.nshards)) == args.shard % args.nshards)
 				all.push_back(tape);
 		});
 		size_t stride = all.size() / 400 + 1;
